@@ -4,3 +4,4 @@ import PdeVerif.Props.C02
 import PdeVerif.Props.C01
 import PdeVerif.Props.C05
 import PdeVerif.Props.C12
+import PdeVerif.Props.C18
